@@ -610,6 +610,20 @@ def run_case(ctx, key, m, rng, fam, ssz, subname, full=True):
                     okm = all(v[0] for v in res.values())
                     firstbad = next((dict(v[1], failed=k) for k, v in res.items() if not v[0]), {})
                     ctx.check(okm, "mapper_grids.delaunay_mesh_grid", mask=m, sub_sizes=ssz, vertices=verts, **firstbad)
+                    # a later fit with the same mass model: the relocated data grid is handed over through Preloads, the mesh
+                    # vertices are new - they are still relocated by the same rule against the data grid's border
+                    vertsC = mesh_vertices(rng, src, sbs)
+                    ok4, mg2 = ctx.guarded("mapper_grids.no_exception", lambda: mesh.mapper_grids_from(
+                        mask=mask, source_plane_data_grid=aa.Grid2DIrregular(values=src.copy()), border_relocator=br,
+                        source_plane_mesh_grid=aa.Grid2DIrregular(values=vertsC.copy()),
+                        preloads=aa.Preloads(relocated_grid=mg.source_plane_data_grid)))
+                    if ok4:
+                        got2 = _np(mg2.source_plane_data_grid)
+                        gm2 = _np(mg2.source_plane_mesh_grid)
+                        res2, _ = judge(vertsC, border, gm2)
+                        firstbad2 = next((dict(v[1], failed=k) for k, v in res2.items() if not v[0]), {})
+                        ctx.check(got2.shape == got.shape and bool(_bits_equal(got2, got).all()) and all(v[0] for v in res2.values()),
+                                  "mapper_grids.with_preloaded_relocated_grid", mask=m, sub_sizes=ssz, vertices=vertsC, **firstbad2)
                 cls.append("mapper_grids:delaunay")
     nontrivial = bool(info.get("interior", 0) > 0 and info.get("changed", 0) > 0)
     if info.get("interior", 0) > 0:
